@@ -125,7 +125,7 @@ var Meta = map[string]PropMeta{
 	"C08": {
 		Level:     "fault_enumeration",
 		Technique: "deterministic simulation with a byzantine reference peer: structure-aware single-field mutation of otherwise valid sessions (every named protocol field x value class), argument lines from the option parser's vocabulary, connection cuts at byte offsets and random noise, against the real daemon behind its real accept loop (no recover: a panic or os.Exit kills the worker process, which the driver observes) and against the real client; each hostile session is followed by a canonical valid session on the same daemon",
-		Rule:      "daemon target: one Server.Serve(simulated listener) with modules ro/rw/fsm per run, 6 (thorough 14) hostile sessions, each followed by a canonical pull whose data must be correct. Session kinds: pull-mut / push-mut (one field occurrence of greeting, module line, argument line, filter list, file index, checksum-header fields, sums, file-list flags/lengths/names/ids/links, id lists, tokens, literals, trailers, phase markers mutated by class neg, -1, 0, +1, -1, 2^20-1, truncation after the field, noise, int32 max/min; count-like fields never above 2^20 unless negative), args (57 argument-line vectors incl. --version, --help, --info=help, --debug=help, --daemon -h, -hh, unknown and unimplemented options, wildcard filters, 70 KB option strings, odd module lines), cut-pull / cut-push (connection lost after N client bytes), noise (random bytes at 5 handshake stages). client target (every third run): real pulling/pushing client against a hostile server with mutated version/seed/list/reply/stat fields or noise. Oracle: worker process alive (no panic, os.Exit, fatal error), no handler or client left blocked after the hostile peer closed, canonical request served with correct bytes, client returns instead of panicking. Non-trivial = at least one canonical session verified / every client run",
+		Rule:      "daemon target: one Server.Serve(simulated listener) with modules ro/rw/fsm per run, 6 (thorough 14) hostile sessions, each followed by a canonical pull whose data must be correct. Session kinds: pull-mut / push-mut (one field occurrence of greeting, module line, argument line, filter list, file index, checksum-header fields, sums, file-list flags/lengths/names/ids/links, id lists, tokens, literals, trailers, phase markers and (client target) multiplex frame headers mutated by class neg, -1, 0, +1, -1, 2^20-1, truncation after the field, noise, int32 max/min; count-like fields never above 2^20 unless negative), args (57 argument-line vectors incl. --version, --help, --info=help, --debug=help, --daemon -h, -hh, unknown and unimplemented options, wildcard filters, 70 KB option strings, odd module lines), cut-pull / cut-push (connection lost after N client bytes), noise (random bytes at 5 handshake stages). client target (every third run): real pulling/pushing client against a hostile server with mutated version/seed/list/reply/stat fields or noise. Oracle: worker process alive (no panic, os.Exit, fatal error), no handler or client left blocked after the hostile peer closed, canonical request served with correct bytes, client returns instead of panicking. Non-trivial = at least one canonical session verified / every client run",
 		Assumptions: []string{"stalled peers and declared multi-gigabyte sizes are outside the guarantee (never generated)", "a crash is identified by panic message and top /repo frame, which is also the known-finding key"},
 		Real:      realCommon, Stub: append([]string{"hostile peer: reference peer with single-field mutation"}, stubCommon...),
 		Quick:     q(300, 60*time.Second),
